@@ -184,3 +184,12 @@ Example C40_cold_source_completes_inside_subscribe :
   = [(0%nat, OEmit (Next 1)); (0%nat, OEmit Done); (0%nat, OSub 0%nat); (0%nat, OUnsub 0%nat);
      (0%nat, OEffect E_FINALLY)].
 Proof. vm_compute. reflexivity. Qed.
+
+(* a source that keeps notifying inside its subscribe() after a callback has
+   failed: the callback still runs (effects 102, 103), nothing more is delivered *)
+Example C40_synchronous_source_after_callback_failure :
+  run_canon (with_pre (x_do_action (Some (fun x => if x =? 2 then Raise 61 else Ok tt)) None None)
+                      [Next 1; Next 2; Next 3; Done]) []
+  = [(0%nat, OEmit (Next 1)); (0%nat, OEmit (Err 61)); (0%nat, OSub 0%nat); (0%nat, OUnsub 0%nat);
+     (0%nat, OEffect 101); (0%nat, OEffect 102); (0%nat, OEffect 103)].
+Proof. vm_compute. reflexivity. Qed.
